@@ -244,6 +244,24 @@ func (s *S) Run(c *scen.Ctx) {
 		simrt.GoNamed("registry", func() {
 			for i := 0; i < nev; i++ {
 				simrt.Sleep(time.Duration(2+simrt.Draw(25, "c13m.gap"))*time.Second + 3*time.Millisecond)
+				if simrt.Draw(4, "c13m.reweight") == 3 {
+					// the registry changes weights only: same hosts, same ports
+					s.reg.mu.Lock()
+					static := simrt.Draw(3, "c13m.static") != 0
+					for j := range s.reg.active {
+						if static {
+							s.reg.active[j].WeightType = 1
+							s.reg.active[j].Weight = []int32{10, 20, 50, 100}[simrt.Draw(4, "c13m.w")]
+						} else {
+							s.reg.active[j].WeightType = 0
+							s.reg.active[j].Weight = 100
+						}
+					}
+					s.reg.mu.Unlock()
+					c.Count("fault.registry_changes_weights_only", 1)
+					s.logRegistry()
+					continue
+				}
 				k := simrt.Draw(len(s.nodes), "c13m.which")
 				n := s.nodes[k]
 				s.reg.mu.Lock()
@@ -257,7 +275,11 @@ func (s *S) Run(c *scen.Ctx) {
 					s.reg.active = append(s.reg.active[:idx:idx], s.reg.active[idx+1:]...)
 					c.Count("fault.registry_removes_endpoint", 1)
 				} else if idx < 0 {
-					s.reg.active = append(s.reg.active, endpointf.EndpointF{Host: n.host, Port: int32(n.port), Timeout: 3000, Istcp: 1, Weight: 100})
+					ne := endpointf.EndpointF{Host: n.host, Port: int32(n.port), Timeout: 3000, Istcp: 1, Weight: 100}
+					if len(s.reg.active) > 0 {
+						ne.WeightType = s.reg.active[0].WeightType
+					}
+					s.reg.active = append(s.reg.active, ne)
 					c.Count("fault.registry_adds_endpoint", 1)
 				}
 				s.reg.mu.Unlock()
@@ -888,10 +910,74 @@ func (s *S) checkManager(c *scen.Ctx) {
 		}
 		return last
 	}
+	stateAt := func(t time.Duration) *regEvent {
+		var st *regEvent
+		for k := range s.regLog {
+			if s.regLog[k].t <= t {
+				st = &s.regLog[k]
+			}
+		}
+		return st
+	}
 	for i := 0; i < len(s.calls); i++ {
 		set := s.calls[i].activeAt
 		n := len(set)
-		if n < 2 || i+n > len(s.calls) {
+		if n < 2 {
+			continue
+		}
+		// what one full cycle over this rotation contains: each endpoint once, or with static weights
+		// W_i > 0 on every listed endpoint max(1, floor(W_i*R/W_max)) times, R = min(100, max(10, W_max/W_min))
+		want := map[string]int{}
+		for _, h := range set {
+			want[h] = 1
+		}
+		if st := stateAt(s.calls[i].t0); st != nil {
+			static, loop := true, true
+			w := map[string]int32{}
+			for _, e := range st.eps {
+				w[e.Host] = e.Weight
+				if e.WeightType == 1 && e.Weight > 0 {
+					loop = false
+				} else {
+					static = false
+				}
+			}
+			if !static && !loop {
+				continue
+			}
+			if static {
+				var wmax, wmin int32 = 0, 1 << 30
+				for _, h := range set {
+					if w[h] > wmax {
+						wmax = w[h]
+					}
+					if w[h] < wmin {
+						wmin = w[h]
+					}
+				}
+				if wmin <= 0 {
+					continue
+				}
+				R := int(wmax / wmin)
+				if R < 10 {
+					R = 10
+				}
+				if R > 100 {
+					R = 100
+				}
+				n = 0
+				for _, h := range set {
+					k := int(w[h]) * R / int(wmax)
+					if k < 1 {
+						k = 1
+					}
+					want[h] = k
+					n += k
+				}
+				c.Count("probe.weighted_rotation_windows_considered", 1)
+			}
+		}
+		if i+n > len(s.calls) {
 			continue
 		}
 		ok := true
@@ -911,8 +997,8 @@ func (s *S) checkManager(c *scen.Ctx) {
 		}
 		c.Count("probe.rotation_windows_checked", 1)
 		for _, h := range set {
-			if seen[h] != 1 {
-				c.Fail("C13", "rotation", "endpointManager", "calls %d..%d: %d consecutive calls over the unchanged rotation %v hit %s %d times (%v)", s.calls[i].k, s.calls[i+n-1].k, n, set, h, seen[h], seen)
+			if seen[h] != want[h] {
+				c.Fail("C13", "rotation", "endpointManager", "calls %d..%d: %d consecutive calls (one full cycle) over the unchanged rotation %v hit %s %d times instead of %d (all: %v, expected: %v; registry: %s)", s.calls[i].k, s.calls[i+n-1].k, n, set, h, seen[h], want[h], seen, want, describeStates(s.regStates(s.calls[i].t0, s.calls[i].t0)))
 				return
 			}
 		}
